@@ -387,7 +387,8 @@ def build(scn, seed=0, rng=None, const_fn=None, signatures=True, name_fn=None):
       elif code == "BATCH_MATMUL":
         # the constant rhs is square in its last two dimensions, so it can be used transposed (adj_y) or not
         # (chosen per weight tensor, so that operators sharing one weight use it the same way)
-        adjy = bool((seed + si + ins[1]) % 2)
+        # and independent of the subgraph's position, so that a subgraph is built identically inside a pair and alone)
+        adjy = bool((seed + (tbuf[ins[1]] or ins[1])) % 2)
         info.setdefault("bmm_adjy", {})["%d,%d" % (si, oi)] = adjy
         g.op(sg, bc, ins, outs, opt(S.BatchMatMulOptionsT, adjX=False, adjY=adjy), BO.BatchMatMulOptions)
       elif code == "AVERAGE_POOL_2D":
